@@ -37,6 +37,19 @@ func layoutResponse(href string, props []propXML, layout string, d, extraNS stri
 		for _, p := range props {
 			b.WriteString("<" + d + "propstat><" + d + "prop>" + p.xml + "</" + d + "prop>" + status(200) + "</" + d + "propstat>")
 		}
+	case "splitrev":
+		// one propstat per property, in reverse order
+		for i := len(props) - 1; i >= 0; i-- {
+			b.WriteString("<" + d + "propstat><" + d + "prop>" + props[i].xml + "</" + d + "prop>" + status(200) + "</" + d + "propstat>")
+		}
+	case "opt404first":
+		// the propstat reporting absent optional properties precedes the one with the values
+		b.WriteString("<" + d + "propstat><" + d + "prop><" + d + "getcontenttype/><" + d + "quota-used-bytes/></" + d + "prop>" + status(404) + "</" + d + "propstat>")
+		b.WriteString("<" + d + "propstat><" + d + "prop>")
+		for _, p := range props {
+			b.WriteString(p.xml)
+		}
+		b.WriteString("</" + d + "prop>" + status(200) + "</" + d + "propstat>")
 	case "extra":
 		b.WriteString("<" + d + "propstat><" + d + "prop><x:color xmlns:x=\"http://apple.com/ns/ical/\">#ff0000</x:color>")
 		for _, p := range props {
